@@ -146,7 +146,7 @@ Proof.
 Qed.
 
 (** * witnesses for the crash points where the property fails (closed computations) *)
-Definition sc_fixed : scen := {| sc_appfixed := true |}.
+Definition sc_fixed : scen := {| sc_appfixed := true; sc_newtx := false |}.
 Definition tx_all : nat -> bool := fun _ => true.
 Definition tx_none : nat -> bool := fun _ => false.
 
